@@ -86,7 +86,16 @@ def minimum_nsphere(obj):
     # this will fail if the points are ALL on the surface of
     # the n-sphere but hopefully the least squares check caught those cases
     # , qhull_options='QbB Pp')
-    voronoi = spatial.Voronoi(points, furthest_site=True)
+    try:
+        voronoi = spatial.Voronoi(points, furthest_site=True)
+    except convex.QhullError:
+        # many points that are nearly but not exactly on a common sphere
+        # make qhull stop with a precision error while merging facets:
+        # `Qx` (exact pre-merges, what scipy uses from five dimensions up)
+        # and `Q12` (allow wide facets) together get through those
+        voronoi = spatial.Voronoi(
+            points, furthest_site=True, qhull_options="Qbb Qc Qz Qx Q12"
+        )
 
     # find the maximum radius^2 point for each of the voronoi vertices
     # this is worst case quite expensive but we have taken
